@@ -13,4 +13,8 @@ for d in sorted(glob.glob('/verif/seeded/*/meta.json')):
     ex, key = rows.get(n, ('?', '?'))
     missed = m.get('initially_missed_then_check_strengthened') or ''
     needs = m['needs_to_manifest'].replace('|', '/')
-    print(f"| {n} | {m['property_id']} | {needs} | `{key}` | {'yes: ' + missed.replace('|','/').removeprefix('missed at first: ') if missed else 'no'} |")
+    last = 'yes: ' + missed.replace('|','/').removeprefix('missed at first: ') if missed else 'no'
+    note = (m.get('note') or '').replace('|', '/')
+    if note and (ex != '1'):
+        last = note if not missed else last + ' — ' + note
+    print(f"| {n} | {m['property_id']} | {needs} | `{key}` | {last} |")
